@@ -61,8 +61,10 @@ def run(chk):
     cfgs[1]["feh"] = rng.choice([0.3, 0.62, 0.46])
     cfgs[2]["feh"] = rng.choice([-2.6, -3.0, -2.56, -2.0, -2.44])
     cfgs.append(dict(mb=[0.1, 0.5, 1.0, 100], a=[-0.5, -1.3, -2.5], nbins=[3, 3, 12], feh=rng.choice([-2.7, -3.4, -2.6])))
+    # IMFs starting well above the WD / NS range, indeed above the lightest BH progenitor: every stellar bin, the lowest included, turns off
+    cfgs.insert(3, dict(mb=[rng.choice([25.0, 30.0, 40.0]), 100.0], a=[rng.choice([-2.3, -1.8])], nbins=[rng.choice([4, 6, 1])], feh=rng.choice([-1.0, 0.0])))
     if chk.tier == "quick":
-        cfgs = cfgs[:4] + cfgs[-1:]
+        cfgs = cfgs[:5] + cfgs[-1:]
     dis, ncase = [], 0
     for ci, cf in enumerate(cfgs):
         N0 = 10 ** rng.uniform(5, 6)
@@ -85,7 +87,7 @@ def run(chk):
                      dict(age=float(popr.age), expected=want_age))
         lastseg_lo = cf["mb"][-2]
         mto_f = float(full.compute_mto(np.array(popr.age)))
-        spans = mto_f < lastseg_lo
+        spans = len(cf["mb"]) > 2 and mto_f < lastseg_lo      # (an IMF that simply STARTS above the final turn-off mass has one slope there)
         dN = np.abs(popr.N - full.Nr.BH[0])
         dM = np.abs(popr.M - full.Mr.BH[0])
         tolN = 2e-3 * max(float(full.Nr.BH[0].sum()), 1.0) + 0.2
